@@ -11,6 +11,7 @@ import (
 	"fmt"
 	"go/token"
 	"go/types"
+	"strings"
 
 	"github.com/goplus/gogen/internal/go/format"
 	"github.com/goplus/gogen/internal/vp"
@@ -82,4 +83,48 @@ func VerifH_C14_zero() {
 		}
 		vp.Assert("C14.zero.cval", zero)
 	}
+}
+
+// Users of Zero: error-return padding (ReturnErr) and omitted optional arguments. The emitted
+// function must type-check in the universe for every universe type.
+func VerifH_C14_contexts() {
+	upkg, all := verifUniverse("")
+	conf := &Config{Types: upkg, Importer: verifImporter{}, HandleErr: func(err error) { panic(err) }}
+	pkg := NewPackage("", "u", conf)
+	T := verifPickAnyType("T", all)
+	ctx := vp.Choose("ctx", 2)
+	var out bytes.Buffer
+	class := vp.Try(func() {
+		switch ctx {
+		case 0: // func zz_f() (T, T, error) { return <zero>, <zero>, zz_err }
+			res := types.NewTuple(types.NewParam(token.NoPos, upkg, "", T.typ), types.NewParam(token.NoPos, upkg, "", T.typ), types.NewParam(token.NoPos, upkg, "", TyError))
+			cb := pkg.NewFunc(nil, "zz_f", nil, res, false).BodyStart(pkg)
+			cb.Val(verifNonConst("t_err", TyError)).ReturnErr(false).End()
+		case 1: // func zz_g(a int, __xgo_optional_b T) {}; func zz_f() { zz_g(1) }
+			pa := types.NewParam(token.NoPos, upkg, "a", types.Typ[types.Int])
+			pb := pkg.NewParam(token.NoPos, "b", T.typ, true)
+			g := pkg.NewFunc(nil, "zz_g", types.NewTuple(pa, pb), nil, false)
+			g.BodyStart(pkg).End()
+			cb := pkg.NewFunc(nil, "zz_f", nil, nil, false).BodyStart(pkg)
+			cb.Val(g.Obj()).Val(1).Call(1).EndStmt().End()
+		}
+		if err := WriteTo(&out, pkg); err != nil {
+			panic(err)
+		}
+	})
+	vp.Assert("C17.c14.contexts.nofault", class != vp.FaultPanic)
+	vp.Assert("C14.contexts.accepted", class == vp.NoPanic)
+	if class != vp.NoPanic {
+		return
+	}
+	text := out.String()
+	vp.Observe("text", text)
+	i := strings.Index(text, "func ")
+	vp.Assert("C14.contexts.emitted", i >= 0)
+	if i < 0 {
+		return
+	}
+	ok, msg := verifGoAccepts("\n" + text[i:] + "\n")
+	vp.Observe("gotypes", msg)
+	vp.Assert("C01,C14.contexts.typechecks", ok)
 }
